@@ -50,8 +50,7 @@ theorem dropConstantScenario_length {rows rows' : List Row}
   unfold dropConstantScenario at h
   split at h
   · cases h
-  · dsimp only at h
-    split at h <;> (cases h; simp)
+  · split at h <;> (cases h; simp)
 
 theorem cleanFieldDicts_length {c : Cell} {fs : List String} {fds : List (Dict Rat)}
     (h : cleanFieldDicts c fs = .ok fds) : commonFieldLength c fs = .ok fds.length := by
@@ -68,9 +67,9 @@ theorem cellWideRows_length {c : Cell} {md fs : List String} {rs : List Row}
     (h : cellWideRows c md fs = .ok rs) : commonFieldLength c fs = .ok rs.length := by
   unfold cellWideRows at h
   cases hf : cleanFieldDicts c fs with
-  | error e => simp [hf, bind, Except.bind] at h
+  | error e => simp [hf, Except.map] at h
   | ok fds =>
-    simp only [hf, bind, Except.bind, pure, Except.pure] at h
+    simp only [hf, Except.map] at h
     cases h
     simp [cleanFieldDicts_length hf]
 
